@@ -40,40 +40,38 @@ fn l_rinv_additive() {
 /// a harness that replaces a function g by it is licensed by the obligation proving g(a ^ b) == g(a) ^ g(b) for all a, b
 /// (every constraint imposed here is an instance of that statement, so no behaviour of the real g is excluded).
 pub mod auf {
-    use bcref::kuznyechik as kz;
     pub const MAXC: usize = 52;
-    pub static mut IN: [[u8; 16]; MAXC] = [[0; 16]; MAXC];
-    pub static mut OUT: [[u8; 16]; MAXC] = [[0; 16]; MAXC];
+    pub static mut IN: [u128; MAXC] = [0; MAXC];
+    pub static mut OUT: [u128; MAXC] = [0; MAXC];
     pub static mut N: usize = 0;
     #[allow(static_mut_refs)]
-    pub fn f(x: &[u8; 16]) -> [u8; 16] {
+    pub fn f(xb: &[u8; 16]) -> [u8; 16] {
         unsafe {
-            let mut y: [u8; 16] = kani::any();
+            let x = u128::from_le_bytes(*xb);
+            let mut y: u128 = kani::any();
             let mut found = false;
             let mut i = 0;
             while i < N {
-                if !found && kz::eq(&IN[i], x) { y = OUT[i]; found = true; }
+                if !found && IN[i] == x { y = OUT[i]; found = true; }
                 i += 1;
             }
-            if !found {
-                if kz::eq(x, &[0u8; 16]) { y = [0u8; 16]; found = true; }
-            }
+            if !found && x == 0 { y = 0; found = true; }
             if !found {
                 let mut i = 0;
                 while i < N {
                     let mut j = 0;
                     while j < i {
-                        if kz::eq(&kz::xor(&IN[i], &IN[j]), x) { kani::assume(kz::eq(&y, &kz::xor(&OUT[i], &OUT[j]))); }
+                        if IN[i] ^ IN[j] == x { kani::assume(y == OUT[i] ^ OUT[j]); }
                         j += 1;
                     }
                     i += 1;
                 }
             }
             assert!(N < MAXC);
-            IN[N] = *x;
+            IN[N] = x;
             OUT[N] = y;
             N += 1;
-            y
+            y.to_le_bytes()
         }
     }
 }
@@ -231,53 +229,54 @@ fn l_r_inverse() {
 /// Uninterpreted inverse pair on blocks: fwd and bwd are mutually inverse bijections, otherwise unconstrained
 /// (relation table with a concrete call counter; cf. des/tdes.rs `ufp`).
 pub mod ipuf {
-    use bcref::kuznyechik as kz;
     pub const MAXC: usize = 40;
-    pub static mut X: [[u8; 16]; MAXC] = [[0; 16]; MAXC];
-    pub static mut Y: [[u8; 16]; MAXC] = [[0; 16]; MAXC];
+    pub static mut X: [u128; MAXC] = [0; MAXC];
+    pub static mut Y: [u128; MAXC] = [0; MAXC];
     pub static mut N: usize = 0;
     #[allow(static_mut_refs)]
-    pub fn fwd(x: &[u8; 16]) -> [u8; 16] {
+    pub fn fwd(xb: &[u8; 16]) -> [u8; 16] {
         unsafe {
-            let mut y: [u8; 16] = kani::any();
+            let x = u128::from_le_bytes(*xb);
+            let mut y: u128 = kani::any();
             let mut found = false;
             let mut i = 0;
             while i < N {
-                if !found && kz::eq(&X[i], x) { y = Y[i]; found = true; }
+                if !found && X[i] == x { y = Y[i]; found = true; }
                 i += 1;
             }
             if !found {
                 let mut i = 0;
                 while i < N {
-                    kani::assume(!kz::eq(&Y[i], &y)); // injective
+                    kani::assume(Y[i] != y); // injective
                     i += 1;
                 }
             }
             assert!(N < MAXC);
-            X[N] = *x; Y[N] = y; N += 1;
-            y
+            X[N] = x; Y[N] = y; N += 1;
+            y.to_le_bytes()
         }
     }
     #[allow(static_mut_refs)]
-    pub fn bwd(y: &[u8; 16]) -> [u8; 16] {
+    pub fn bwd(yb: &[u8; 16]) -> [u8; 16] {
         unsafe {
-            let mut x: [u8; 16] = kani::any();
+            let y = u128::from_le_bytes(*yb);
+            let mut x: u128 = kani::any();
             let mut found = false;
             let mut i = 0;
             while i < N {
-                if !found && kz::eq(&Y[i], y) { x = X[i]; found = true; }
+                if !found && Y[i] == y { x = X[i]; found = true; }
                 i += 1;
             }
             if !found {
                 let mut i = 0;
                 while i < N {
-                    kani::assume(!kz::eq(&X[i], &x));
+                    kani::assume(X[i] != x);
                     i += 1;
                 }
             }
             assert!(N < MAXC);
-            X[N] = x; Y[N] = *y; N += 1;
-            x
+            X[N] = x; Y[N] = y; N += 1;
+            x.to_le_bytes()
         }
     }
 }
@@ -344,33 +343,131 @@ fn l_ref_roundtrip_rev() {
 // network on equal inputs are trivially equal on paper but expensive for a SAT solver (no structural sharing), so g is
 // replaced on BOTH sides by one uninterpreted function: the obligation then holds for every g, in particular bcref's.
 pub mod ruf {
-    use bcref::kuznyechik as kz;
     pub const MAXC: usize = 150;
     // one table for all block-valued functions, distinguished by tag; second argument zero when absent
     pub static mut TAG: [u8; MAXC] = [0; MAXC];
-    pub static mut A: [[u8; 16]; MAXC] = [[0; 16]; MAXC];
-    pub static mut B: [[u8; 16]; MAXC] = [[0; 16]; MAXC];
-    pub static mut OUT: [[u8; 16]; MAXC] = [[0; 16]; MAXC];
+    pub static mut A: [u128; MAXC] = [0; MAXC];
+    pub static mut B: [u128; MAXC] = [0; MAXC];
+    pub static mut OUT: [u128; MAXC] = [0; MAXC];
     pub static mut N: usize = 0;
     #[allow(static_mut_refs)]
-    fn call(tag: u8, a: &[u8; 16], b: &[u8; 16]) -> [u8; 16] {
+    fn call(tag: u8, a: u128, b: u128) -> [u8; 16] {
         unsafe {
-            let mut y: [u8; 16] = kani::any();
+            let mut y: u128 = kani::any();
             let mut found = false;
             let mut i = 0;
             while i < N {
-                if !found && TAG[i] == tag && kz::eq(&A[i], a) && kz::eq(&B[i], b) { y = OUT[i]; found = true; }
+                if !found && TAG[i] == tag && A[i] == a && B[i] == b { y = OUT[i]; found = true; }
                 i += 1;
             }
             assert!(N < MAXC);
-            TAG[N] = tag; A[N] = *a; B[N] = *b; OUT[N] = y; N += 1;
+            TAG[N] = tag; A[N] = a; B[N] = b; OUT[N] = y; N += 1;
+            y.to_le_bytes()
+        }
+    }
+    fn w(a: &[u8; 16]) -> u128 { u128::from_le_bytes(*a) }
+    pub fn l(a: &[u8; 16]) -> [u8; 16] { call(1, w(a), 0) }
+    pub fn l_inv(a: &[u8; 16]) -> [u8; 16] { call(2, w(a), 0) }
+    pub fn lsx(k: &[u8; 16], a: &[u8; 16]) -> [u8; 16] { call(3, w(k), w(a)) }
+    pub fn x_linv_sinv(k: &[u8; 16], a: &[u8; 16]) -> [u8; 16] { call(4, w(k), w(a)) }
+    pub fn c(i: usize) -> [u8; 16] { call(5, i as u128, 0) }
+    pub fn ell(a: &[u8; 16]) -> u8 { call(6, w(a), 0)[0] }
+}
+
+/// Uninterpreted ADDITIVE INVERSE PAIR on blocks: fwd and bwd are mutually inverse bijections, both GF(2)-additive
+/// (f(0) = 0, f(u ^ v) = f(u) ^ f(v) whenever u, v were seen before), otherwise unconstrained.  Stands for (L, L^-1) in
+/// round-trip and decryption-key obligations; licensed by l_l_additive, l_linv_additive, l_l_inverse, l_l_inverse_rev
+/// (every constraint is an instance of one of these statements about the real L, L^-1).
+pub mod aipuf {
+    pub const MAXC: usize = 48;
+    pub static mut X: [u128; MAXC] = [0; MAXC];
+    pub static mut Y: [u128; MAXC] = [0; MAXC];
+    pub static mut N: usize = 0;
+    #[allow(static_mut_refs)]
+    pub fn fwd(xb: &[u8; 16]) -> [u8; 16] {
+        unsafe {
+            let x = u128::from_le_bytes(*xb);
+            let mut y: u128 = kani::any();
+            let mut found = false;
+            let mut i = 0;
+            while i < N {
+                if !found && X[i] == x { y = Y[i]; found = true; }
+                i += 1;
+            }
+            if !found && x == 0 { y = 0; found = true; }
+            if !found {
+                let mut i = 0;
+                while i < N {
+                    kani::assume(Y[i] != y); // injective
+                    let mut j = 0;
+                    while j < i {
+                        if X[i] ^ X[j] == x { kani::assume(y == Y[i] ^ Y[j]); } // additive
+                        j += 1;
+                    }
+                    i += 1;
+                }
+            }
+            assert!(N < MAXC);
+            X[N] = x; Y[N] = y; N += 1;
+            y.to_le_bytes()
+        }
+    }
+    #[allow(static_mut_refs)]
+    pub fn bwd(yb: &[u8; 16]) -> [u8; 16] {
+        unsafe {
+            let y = u128::from_le_bytes(*yb);
+            let mut x: u128 = kani::any();
+            let mut found = false;
+            let mut i = 0;
+            while i < N {
+                if !found && Y[i] == y { x = X[i]; found = true; }
+                i += 1;
+            }
+            if !found && y == 0 { x = 0; found = true; }
+            if !found {
+                let mut i = 0;
+                while i < N {
+                    kani::assume(X[i] != x);
+                    let mut j = 0;
+                    while j < i {
+                        if Y[i] ^ Y[j] == y { kani::assume(x == X[i] ^ X[j]); }
+                        j += 1;
+                    }
+                    i += 1;
+                }
+            }
+            assert!(N < MAXC);
+            X[N] = x; Y[N] = y; N += 1;
+            x.to_le_bytes()
+        }
+    }
+}
+
+/// key -> ten round keys, uninterpreted (stand-in for bcref::kuznyechik::key_schedule on both sides of API obligations)
+pub mod kuf {
+    pub const MAXC: usize = 8;
+    pub static mut IN: [[u8; 32]; MAXC] = [[0; 32]; MAXC];
+    pub static mut OUT: [[[u8; 16]; 10]; MAXC] = [[[0; 16]; 10]; MAXC];
+    pub static mut N: usize = 0;
+    #[allow(static_mut_refs)]
+    pub fn key_schedule(key: &[u8; 32]) -> [[u8; 16]; 10] {
+        unsafe {
+            let mut y: [[u8; 16]; 10] = kani::any();
+            let mut found = false;
+            let mut i = 0;
+            while i < N {
+                let mut same = true;
+                let mut j = 0;
+                while j < 32 {
+                    same &= IN[i][j] == key[j];
+                    j += 1;
+                }
+                if !found && same { y = OUT[i]; found = true; }
+                i += 1;
+            }
+            assert!(N < MAXC);
+            IN[N] = *key; OUT[N] = y; N += 1;
             y
         }
     }
-    pub fn l(a: &[u8; 16]) -> [u8; 16] { call(1, a, &[0u8; 16]) }
-    pub fn l_inv(a: &[u8; 16]) -> [u8; 16] { call(2, a, &[0u8; 16]) }
-    pub fn lsx(k: &[u8; 16], a: &[u8; 16]) -> [u8; 16] { call(3, k, a) }
-    pub fn x_linv_sinv(k: &[u8; 16], a: &[u8; 16]) -> [u8; 16] { call(4, k, a) }
-    pub fn c(i: usize) -> [u8; 16] { call(5, &[(i & 0xff) as u8, (i >> 8) as u8, 0, 0, 0, 0, 0, 0, 0, 0, 0, 0, 0, 0, 0, 0], &[0u8; 16]) }
-    pub fn ell(a: &[u8; 16]) -> u8 { call(6, a, &[0u8; 16])[0] }
 }
